@@ -783,6 +783,7 @@ class Idioms:
             t = s.targets[0].id
             if self._local(t) and _occ(root, t) == 2 and _occ(nxt, t) == 1 and not isinstance(s.value, (ast.GeneratorExp,)) \
                     and _first_effect_position(nxt, t):
+                # (a name with a declared C type occurs a third time, in its declaration: never forwarded)
                 if isinstance(nxt, ast.For):
                     nxt.iter = _Sub(t, s.value).visit(nxt.iter)
                 elif isinstance(nxt, ast.If):
